@@ -328,6 +328,13 @@ def compare(case, rec, model):
     dis = []
     res = rec['result']
     if 'err' in res or 'err' in model:
+        fr0 = rec.get('frame') or {}
+        inst = (fr0.get('index') or {}).get('instants')
+        if len(rec.get('pts', [])) == 0 and inst is not None and len(set(inst)) != len(inst) and {res.get('err'), model.get('err')} <= {None, 'duplicate'}:
+            # a target grid WITHOUT any point and an index with a repeated instant: whether pandas' reindex(index.union(empty)) raises
+            # depends on whether the union comes back as the identical index object (zone conversion, sortedness) - outside the model,
+            # and no value is produced either way
+            return dis
         if res.get('err') != model.get('err'):
             dis.append('error class: code %s (%s), model %s' % (res.get('err', 'no error'), res.get('msg', ''), model.get('err', 'no error')))
         return dis
